@@ -124,6 +124,11 @@ def simulation_case(case):
                 eq = DiffusionPDE(0.7)
             elif eqname == "cahn-hilliard":
                 eq = CahnHilliardPDE(0.6)
+            elif eqname.startswith("cahn-hilliard-wall"):
+                # a wetting condition on c; the chemical potential keeps its zero-flux condition => conserved
+                wall = {"derivative": 0.3} if eqname.endswith("derivative") else {"value": 0.5}
+                bc_c = {a: ("periodic" if p else wall) for a, p in zip(geo["axes"], geo["periodic"])}
+                eq = CahnHilliardPDE(0.6, bc_c=bc_c)
             else:
                 eq = PDE({"c": "laplace(c**3 - c - 0.5*laplace(c))"})
             vals = []
@@ -176,12 +181,14 @@ def main(run):
     sgrids = [["unit", [4], [False]], ["cart", [[0, 1], [-1, 3]], [3, 2], [True, False]], ["sph", [0.7, 2], 3], ["polar", 2, 4],
               ["cyl", 2, [0, 1], [3, 2], False], ["cart", [[0, 1], [0, 2], [-3, 3]], [2, 2, 2], [False, True, False]]]
     scases = [{"grid": g, "eq": e, "solver": s, "backend": b, "seed": run.seed}
-              for g in sgrids for e in ("diffusion", "cahn-hilliard", "pde-expression") for s in SOLVERS for b in ("numpy", "numba")]
+              for g in sgrids for e in ("diffusion", "cahn-hilliard", "cahn-hilliard-wall-derivative", "cahn-hilliard-wall-value", "pde-expression")
+              for s in SOLVERS for b in ("numpy", "numba")]
     run.explore("checks.c05:simulation_case", scases, mode="I", part="(b) integral along simulations", limit=900)
     jcases = [{"grid": g, "eq": e, "solver": s, "backend": "numba", "seed": run.seed, "reduced": run.tier == "quick"}
               for g, e, s in [(sgrids[0], "diffusion", "euler"), (sgrids[1], "cahn-hilliard", "runge-kutta"), (sgrids[2], "cahn-hilliard", "euler"),
                               (sgrids[3], "pde-expression", "adams-bashforth"), (sgrids[4], "diffusion", "implicit"),
-                              (sgrids[2], "diffusion", "crank-nicolson"), (sgrids[5], "cahn-hilliard", "euler"), (sgrids[3], "diffusion", "scipy")]]
+                              (sgrids[2], "diffusion", "crank-nicolson"), (sgrids[5], "cahn-hilliard", "euler"), (sgrids[3], "diffusion", "scipy"),
+                              (sgrids[0], "cahn-hilliard-wall-derivative", "euler"), (sgrids[4], "cahn-hilliard-wall-value", "runge-kutta")]]
     run.explore("checks.c05:simulation_case", jcases, mode="J", part="(b) compiled simulations", chunksize=1, limit=2400)
     run.assumptions += [
         "(a) is decisive: every update of the listed solvers is a combination of rates in the range of L_bc, so a vanishing "
